@@ -131,7 +131,19 @@ impl SessionDescription {
                     if let Some(media) = current_media.take() {
                         media_sections.push(media);
                     }
-                    current_media = Some(MediaSection::from_m_line(value)?);
+                    let mut media = MediaSection::from_m_line(value)?;
+                    // RFC 4566 §6: a session-level direction attribute is the default
+                    // for every media section that does not carry its own.
+                    if let Some(direction) = session
+                        .attributes
+                        .iter()
+                        .rev()
+                        .filter(|attr| attr.value.is_none())
+                        .find_map(|attr| Direction::from_attribute(&attr.key))
+                    {
+                        media.direction = direction;
+                    }
+                    current_media = Some(media);
                 }
                 _ => {
                     // Unhandled prefixes are preserved as session-level attributes.
